@@ -317,10 +317,10 @@ theorem mem_of_obsLookup {obs : Obs} {a : String} {o : CObj} (h : obsLookup obs 
 def ObsOKp (s : St) (done : List Ref) (obs : Obs) : Prop :=
   (∀ o ∈ s.objs, key o ∈ done → o.ctrl ≠ .other → o.annot ≠ "" ∧ obsLookup obs o.annot = some o) ∧
   (∀ a o, obsLookup obs a = some o → o ∈ s.objs ∧ key o ∈ s.refs ∧ o.ctrl ≠ .other ∧ o.annot = a ∧ a ≠ "") ∧
-  (∀ p ∈ obs, p.2 ∈ s.objs ∧ p.2.ctrl ≠ .other)
+  (∀ p ∈ obs, p.2 ∈ s.objs ∧ p.2.ctrl ≠ .other ∧ p.2.annot = p.1 ∧ key p.2 ∈ s.refs)
 
 theorem obs_elems_ok {s : St} {done : List Ref} {obs : Obs} (h : ObsOKp s done obs) :
-    ∀ p ∈ obs, p.2 ∈ s.objs ∧ p.2.ctrl ≠ .other := h.2.2
+    ∀ p ∈ obs, p.2 ∈ s.objs ∧ p.2.ctrl ≠ .other := fun p hp => ⟨(h.2.2 p hp).1, (h.2.2 p hp).2.1⟩
 
 theorem mem_obsInsert {obs : Obs} {n : String} {o : CObj} {p : String × CObj} (h : p ∈ obsInsert obs n o) :
     p ∈ obs ∨ p = (n, o) := by
@@ -376,7 +376,7 @@ theorem obsOKp_insert {s : St} (hg : Good s) {done : List Ref} {obs : Obs} (r : 
     · intro p hp
       rcases mem_obsInsert hp with hp | rfl
       · exact h.2.2 p hp
-      · exact ⟨ho, hc⟩
+      · exact ⟨ho, hc, rfl, hk ▸ hr⟩
 
 theorem safe_observeFn {s : St} (hg : Good s) (lrv : Nat) (k : Obs → P) :
     ∀ (rs done : List Ref) (acc : Obs), (∀ r ∈ rs, r ∈ s.refs) → (∀ r ∈ done, r ∈ s.refs) → ObsOKp s done acc →
